@@ -491,6 +491,11 @@ func c04Chains(p *core.Program, r *core.Report) {
 	// R4: "running again on the result of a run changes nothing": the package's tags are merged over the doc comments of
 	// ALL its files - the files a run adds (each with a tag-less package comment) must not change what the next run reads
 	chainRules(p, r, "R4", "C06", []string{"C06.R3"}, "package-level tags are merged over every file of the package")
+	// R5: "byte-identical across repeated runs": what a run leaves behind must not depend on whether an EARLIER run was
+	// interrupted - the sums are recorded only by a run in which every package was generated (C02.R4/R5), and nothing but
+	// Save writes them (C08.R2); otherwise later runs skip packages that were never generated and the file set differs
+	chainRules(p, r, "R5", "C02", []string{"C02.R4", "C02.R5"}, "gengo.sum is recorded only after every package was generated")
+	chainRules(p, r, "R6", "C08", []string{"C08.R2"}, "the recorded sums are changed by nothing but the load and Save")
 }
 
 func runC04(p *core.Program, r *core.Report) {
